@@ -133,6 +133,38 @@ pub fn account(ev: &mut Eval, sc: &Scenario, res: &RunResult) -> String {
     if res.kernel.budget_exhausted {
         ev.count("budget_exhausted", 1);
     }
+    {
+        use crate::scenario::CallKind as K;
+        let c = &res.kernel.gt.counts;
+        let g = &res.kernel.gt;
+        if g.strategies_used[1] > 0 {
+            ev.count("probe remote_reads_via_proc_mem", 1);
+        }
+        if g.strategies_used[2] > 0 {
+            ev.count("probe remote_reads_via_peekdata", 1);
+        }
+        if c[K::PtraceGetregs as usize] > c[K::PtraceAttach as usize] {
+            ev.count("probe getregs_fallback_after_getregset_failure", 1);
+        }
+        if c[K::Mmap as usize] > 0 {
+            ev.count("probe module_file_mapped", 1);
+        }
+        if c[K::PtraceCont as usize] > 0 {
+            ev.count("probe signal_reinjected_during_attach", 1);
+        }
+        if c[K::Nanosleep as usize] > 50 {
+            ev.count("probe stop_wait_ran_into_timeout", 1);
+        }
+        if !g.exits.is_empty() {
+            ev.count("probe thread_or_process_died_during_run", 1);
+        }
+        if res.kernel.dead {
+            ev.count("probe process_killed_during_run", 1);
+        }
+        if res.kernel.threads.iter().any(|t| t.life == crate::kernel::Life::Zombie) {
+            ev.count("probe zombie_thread_present", 1);
+        }
+    }
     if res.kernel.gt.short_mem_reads > 0 {
         ev.count("probe short_remote_read", res.kernel.gt.short_mem_reads);
     }
